@@ -59,6 +59,9 @@ func (m *MDP) DecodeFromBytes(data []byte, df gopacket.DecodeFeedback) error {
 	m.Length = len(data)
 	offset := 28
 	m.PreambleData = data[:offset]
+	// The TLV fields are optional: forget the values of a previous packet.
+	m.DeviceInfo, m.NetworkInfo, m.Type6UUID, m.Type7UUID = "", "", "", ""
+	m.Longitude, m.Latitude, m.IPAddress, m.Type13Bool = 0, 0, nil, false
 
 	for {
 		if offset >= m.Length {
